@@ -321,6 +321,14 @@ def do_check(pid, tier, seed, args, workdir, t_start):
     violations, reach_jobs = [], []
     per_pkg_jobs = {}
     for r in all_results:
+        # at most 3 witnesses per obligation are replayed and kept
+        cnt = {}
+        kept = []
+        for w in r['violations']:
+            cnt[w['label']] = cnt.get(w['label'], 0) + 1
+            if cnt[w['label']] <= 3:
+                kept.append(w)
+        r['violations'] = kept
         for w in r['violations']:
             w['harness'] = r['harness']
             w['pkgdir'] = r['pkgdir']
